@@ -134,7 +134,7 @@ func c17Sched(sh *explore.Shard) {
 			j, _ := json.Marshal(res.HS)
 			return string(j)
 		}
-		probe := verifsched.Run(body, nil, verifsched.Sched{})
+		probe := verifsched.Run(body, nil, verifsched.Sched{DelaySpawns: true})
 		if len(probe.Points) == 0 {
 			if sh.I == 0 && bi == 0 {
 				sh.C.Violate(explore.Violation{Property: "C17", Class: "HARNESS/not-sched-build", Msg: "the pipelines are not routed through the scheduler in this build", Case: caseJSON(0, nil)})
@@ -142,7 +142,7 @@ func c17Sched(sh *explore.Shard) {
 			return
 		}
 		first := observe()
-		verifsched.Run(body, probe.Choices, verifsched.Sched{})
+		verifsched.Run(body, probe.Choices, verifsched.Sched{DelaySpawns: true})
 		if observe() != first && sh.I == 0 {
 			sh.C.Violate(explore.Violation{Property: "C17", Class: "HARNESS/replay", Msg: "replaying the default schedule gave a different observation", Case: caseJSON(0, nil)})
 		}
@@ -173,7 +173,7 @@ func c17Sched(sh *explore.Shard) {
 			}
 			return ""
 		}
-		ex := &verifsched.Explorer{Body: body, Bound: bound, ShardI: sh.I, ShardN: sh.N, Stop: sh.Expired, Check: check}
+		ex := &verifsched.Explorer{Body: body, Cfg: verifsched.Sched{DelaySpawns: true}, Bound: bound, ShardI: sh.I, ShardN: sh.N, Stop: sh.Expired, Check: check}
 		if sh.Only >= 0 {
 			ex.ShardI, ex.ShardN = 0, 1
 		}
@@ -193,9 +193,9 @@ func c17Sched(sh *explore.Shard) {
 			sh.C.Exhaustive = false
 		}
 		for _, v := range ex.Violations {
-			verifsched.Run(body, v.Choices, verifsched.Sched{})
+			verifsched.Run(body, v.Choices, verifsched.Sched{DelaySpawns: true})
 			o1 := observe()
-			verifsched.Run(body, v.Choices, verifsched.Sched{})
+			verifsched.Run(body, v.Choices, verifsched.Sched{DelaySpawns: true})
 			class := "schedule"
 			if o1 != observe() || strings.HasPrefix(v.Msg, "HARNESS") {
 				class = "HARNESS/unstable-replay"
@@ -464,9 +464,9 @@ func c17Replay(caseJSON []byte) (string, error) {
 			}
 			res = inproc.Scan(modelgit.NewEnv(b.repo, &plan), inproc.SimpleGrouper{Walk: sc.Walks}, b.explicit, sizes.NameStyleFull, pm)
 		}
-		verifsched.Run(body, nil, verifsched.Sched{})
+		verifsched.Run(body, nil, verifsched.Sched{DelaySpawns: true})
 		j0, _ := json.Marshal(res.HS)
-		x := verifsched.Run(body, c.Schedule, verifsched.Sched{})
+		x := verifsched.Run(body, c.Schedule, verifsched.Sched{DelaySpawns: true})
 		j1, _ := json.Marshal(res.HS)
 		switch {
 		case x.Diverged != "":
@@ -519,6 +519,6 @@ func c17Parent(prop, tier string) int {
 
 func init() {
 	Registry["C17"] = &Check{Level: "model_checking", Worker: c17Worker, Parent: c17Parent, ReplayExe: "/verif/.build/vcheck-sched", Replay: c17Replay, QuickBudget: 90 * time.Second, ThoroughBudget: 15 * time.Minute,
-		Rule:        "(part 2, deciding determinism over schedules) the real ScanRepositoryUsingGraph, CollectReferences, obj_iter.go, batch_obj_iter.go, ref_iter.go and the verbatim go-pipe pipeline/function/scanner code, mechanically rewritten from their current text so that every mutex, atomic, channel operation, select, close, context cancellation, go statement and pipe read/write is a scheduling point; threads: main, the two feeder goroutines, every pipeline stage goroutine and the model git processes; ALL schedules with at most 2 (quick; 1 for the fault bodies) / 3 (thorough) deviations from the default schedule for 5 fault-free bodies (whole records; a ROOT argument naming the annotated tag; 7-byte writes with per-record flushing; the real progress meter with its ticker goroutines running, bound 1/2; 1030 blobs with two equal maxima, bound 1) and 6 single-fault bodies; oracle: every schedule yields the same HistorySize JSON (numbers = oracle, same cited objects and descriptions), no deadlock, no panic, and with a fault an error in every schedule. (part 1, read-only) real binary + real git: 3 repositories (one with root trees above 64 kiB in consecutive commits) x 7 argument vectors (one with three ROOT arguments) x 8 addressing modes: snapshot (mode, size, mtime-ns, SHA-256) of git dir, work tree, index and linked worktree identical before and after; 6 repeated runs with GOMAXPROCS 1..16 give byte-identical stdout; thorough additionally traces the run with strace -f and rejects any successful write-type system call on a path inside the repository; the git commands issued (model git log) stay within the read-only plumbing whitelist; auxiliary: 3 free-running runs per case of a -race build (a report is a violation, silence is not evidence). states = distinct observations over schedules; transitions = scheduling steps; non-trivial = executions whose schedule contains at least one deviation, plus read-only cases",
+		Rule:        "(part 2, deciding determinism over schedules) the real ScanRepositoryUsingGraph, CollectReferences, obj_iter.go, batch_obj_iter.go, ref_iter.go and the verbatim go-pipe pipeline/function/scanner code, mechanically rewritten from their current text so that every mutex, atomic, channel operation, select, close, context cancellation, go statement and pipe read/write is a scheduling point, and every go statement additionally offers the choice (one deviation) of starving the new goroutine until main has finished or nothing else can run; threads: main, the two feeder goroutines, every pipeline stage goroutine and the model git processes; ALL schedules with at most 2 (quick; 1 for the fault bodies) / 3 (thorough) deviations from the default schedule for 5 fault-free bodies (whole records; a ROOT argument naming the annotated tag; 7-byte writes with per-record flushing; the real progress meter with its ticker goroutines running, bound 1/2; 1030 blobs with two equal maxima, bound 1) and 6 single-fault bodies; oracle: every schedule yields the same HistorySize JSON (numbers = oracle, same cited objects and descriptions), no deadlock, no panic, and with a fault an error in every schedule. (part 1, read-only) real binary + real git: 3 repositories (one with root trees above 64 kiB in consecutive commits) x 7 argument vectors (one with three ROOT arguments) x 8 addressing modes: snapshot (mode, size, mtime-ns, SHA-256) of git dir, work tree, index and linked worktree identical before and after; 6 repeated runs with GOMAXPROCS 1..16 give byte-identical stdout; thorough additionally traces the run with strace -f and rejects any successful write-type system call on a path inside the repository; the git commands issued (model git log) stay within the read-only plumbing whitelist; auxiliary: 3 free-running runs per case of a -race build (a report is a violation, silence is not evidence). states = distinct observations over schedules; transitions = scheduling steps; non-trivial = executions whose schedule contains at least one deviation, plus read-only cases",
 		Assumptions: []string{"race-freedom is not decided by schedule enumeration (scheduling points sit at synchronisation operations); repeated free-running runs are sampling and are reported as such", "the model git processes are threads whose only interaction is through their pipes"}}
 }
